@@ -10,6 +10,7 @@ import (
 	"strings"
 
 	"github.com/dpb587/rdfkit-go/ontology/xsd/xsdtype"
+	"github.com/dpb587/rdfkit-go/ontology/xsd/xsdutil"
 	"github.com/dpb587/rdfkit-go/rdf"
 	"verifharness/hx"
 )
@@ -361,11 +362,21 @@ func c20DurationSeconds(s string) string {
 	return fmt.Sprintf("%v %s %s", neg, months.RatString(), secs.RatString())
 }
 
-var c20Mutations = []string{" ", "\t", "+", "-", ".", "0", "1", "e", "E", "Z", ":", "T", "P", "=", "x", "_", "é", "00", "\n"}
+var c20Mutations = []string{" ", "\t", "\f", "\v", "\u00a0", "\u0085", "\u2003", "\r", "+", "-", ".", "0", "1", "e", "E", "Z", ":", "T", "P", "=", "x", "_", "é", "00", "\n"}
 
 func c20XSD(r *hx.Rand, n int, out *hx.Out, _ []string) {
 	for c := 0; c < n; c++ {
 		rr := r.Fork()
+		if c%29 == 28 { // xsdutil.WhiteSpaceCollapse itself against the model
+			var sb strings.Builder
+			for i, k := 0, rr.Intn(8); i < k; i++ {
+				sb.WriteString(hx.Pick(rr, []string{" ", "  ", "\t", "\n", "\r", "\r\n", "a", "b c", "\f", "\v", "\u00a0", "\u0085", "\u2003", "é", ""}))
+			}
+			s := sb.String()
+			out.Emit(hx.Case{Kind: "K/C20/whitespace", Line: "xsd\tws\t" + hx.X(s), Impl: "V" + hx.X(xsdutil.WhiteSpaceCollapse(s)), Class: "whitespace", NonTri: len(s) > 1,
+				Desc: fmt.Sprintf("WhiteSpaceCollapse(%q)", s)})
+			continue
+		}
 		t := xsdTypes[c%len(xsdTypes)]
 		var s, cls string
 		switch k := rr.Intn(10); {
